@@ -5,7 +5,7 @@ FUNCTIONS = [
     "flush_inbuf, xfrm_append, xfrm_flush",                              # xfrm/ostream.c
     "process_data of gzip.c / xz.c / zstd.c / bzip2.c (bounded)",
     "xfrm_compressor_id_from_magic",                                     # xfrm/compress.c
-    "tar_probe, tar_open_stream",                                        # tar/iterator.c
+    "tar_probe, tar_open_stream, strm_get_buffered_data, strm_advance_buffer, drop_parent",  # tar/iterator.c
 ]
 TRUSTED = [
     "codec libraries (zlib inflate/deflate/*Reset, liblzma lzma_code/lzma_stream_*coder/lzma_end, libzstd "
@@ -74,7 +74,7 @@ _REPL_FLUSH_INBUF = ["--replace-calls", "flush_inbuf:c15_flush_inbuf_contract",
 
 def _h(name, loops=None, **kw):
     d = dict(name=name, file=name + ".c", label="proved", solver="cadical",
-             timeout=300, defines=dict(_FEATURES))
+             timeout=900, defines=dict(_FEATURES))
     if loops:
         d["loops"] = loops
     d.update(kw)
@@ -119,6 +119,12 @@ HARNESSES = [
        fp={"get_buffered_data": "c15_src_get", "advance_buffer": "c15_src_advance",
            "get_filename": "c15_src_filename"},
        pre_instrument_flags=["--replace-calls", "tar_probe:c15_tar_probe_contract"]),
+    # per-file stream of the tar reader over the (decompressing) archive stream
+    _h("tar_strm", label="bounded(sparse map entries <= 2)", unwind=4,
+       fp={"get_buffered_data": "c15_src_get", "advance_buffer": "c15_src_advance",
+           "destroy": "it_destroy", "*": None},
+       cases=[dict(id="nsp%d" % n, defines={"NSP": n}, tier="quick") for n in (0, 1)] +
+             [dict(id="nsp2", defines={"NSP": 2}, tier="thorough")]),
     _h("adapter_gzip", label="bounded(library calls per process_data <= 3)",
        cases=_libcalls(3, 5)),
     _h("adapter_xz", label="bounded(library calls per process_data <= 3)",
